@@ -25,6 +25,16 @@ func OCP(u *unstructured.Unstructured, cp corev1alpha1.CollisionProtection) core
 	return corev1alpha1.ObjectSetObject{Object: *u, CollisionProtection: cp}
 }
 
+// CELProbes: Widgets need a Ready=True condition, expressed as a CEL rule with an EMPTY failure
+// message (the API allows it); nothing selects Gadgets.
+func CELProbes() []corev1alpha1.ObjectSetProbe {
+	return []corev1alpha1.ObjectSetProbe{{
+		Selector: corev1alpha1.ProbeSelector{Kind: &corev1alpha1.PackageProbeKindSpec{Group: TestGroup, Kind: "Widget"}},
+		Probes: []corev1alpha1.Probe{{CEL: &corev1alpha1.ProbeCELSpec{Message: "",
+			Rule: `has(self.status) && has(self.status.conditions) && self.status.conditions.exists(c, c.type == "Ready" && c.status == "True")`}}},
+	}}
+}
+
 // StdProbes: Widgets need condition Ready=True, Gadgets need .spec.x == .status.x.
 func StdProbes() []corev1alpha1.ObjectSetProbe {
 	return []corev1alpha1.ObjectSetProbe{
